@@ -315,14 +315,17 @@ def block_ok(hist, ev, order):
     return order[last] <= order[ev]
 
 
-def after_kinds(hist, family=""):
+def after_kinds(hist, family="", label=None):
     """Kind of update that follows the first query, for the fingerprint of a stale answer.
 
     When several kinds follow, the one that can make this family stale is named: the type system's
     caches only depend on edges; provider / cluster caches are named after ``gen`` first, then ``edge``,
     and ``ret`` only if nothing else happened (``update_return_type`` is the one update that clears them).
     """
-    first_q = next((i for i, e in enumerate(hist) if e[0] == "q"), None)
+    # only what happened after the LAST query of that type can make its cached answer stale (the query
+    # itself re-filled the cache); without a label: after the first query of the history
+    qs = [i for i, e in enumerate(hist) if e[0] == "q" and (label is None or e[1] == label)]
+    first_q = (qs[-1] if label is not None else qs[0]) if qs else None
     kinds = set() if first_q is None else {e[0] for e in hist[first_q:] if e[0] != "q"}
     for k in (("edge", "gen", "ret") if family.startswith("TypeSystem.") else ("gen", "edge", "ret")):
         if k in kinds:
@@ -370,7 +373,7 @@ def check_history(col, W, hist, observe=None):
                 observe[(s.name, lab)] = live
             for fam, val in live.items():
                 if val != fresh[fam]:
-                    col.violation(f"C26|stale|{fam}|after={after_kinds(hist, fam)}",
+                    col.violation(f"C26|stale|{fam}|after={after_kinds(hist, fam, lab)}",
                                   f"{name} history {hist}: cached {fam}({lab}) = {_short(val)} but a fresh "
                                   f"system built from the final graph gives {_short(fresh[fam])}", data, rank=rank)
                     col.distinct("outcomes", ("stale", fam))
